@@ -227,8 +227,26 @@ def main(argv=None):
     cases: list[Case] = []
     gen_errors = []
     t_gen = time.time()
+    def all_descs():
+        """the property's own cases, plus - for read-only properties that build their trees with build.build and
+        declare `post_variants` - copies of some of them whose tree is mutated after the build (build.apply_post)"""
+        import build as _B
+        pv = getattr(prop, "post_variants", None)
+        want = (pv.get(args.tier, 0) if isinstance(pv, dict) else 0)
+        rng2 = random.Random(seed * 7919 + 13)
+        pool = []
+        for d in prop.descs(args.tier, rng):
+            yield d
+            if want and isinstance(d, dict) and d.get("nodes") and "post" not in d and _B.nodes_size(d["nodes"]) >= 2:
+                pool.append(d)
+        if want and pool:
+            for d in rng2.sample(pool, min(want, len(pool))):
+                n = _B.nodes_size(d["nodes"])
+                yield dict(d, post=_B.random_post(rng2, n, len(d.get("univ", [])) or 1, bool(d.get("typed")),
+                                                  allowed=getattr(prop, "post_ops", None)))
+
     try:
-        for desc in prop.descs(args.tier, rng):
+        for desc in all_descs():
             try:
                 cases.append(prop.run(desc))
             except Exception as e:  # harness must never die silently on one case
